@@ -62,6 +62,16 @@ META = {
   tie="Run: generated (type, value) pairs - struct types with every combination of the tag options on fields of every kind, pointer depth 0..3, interfaces holding any supported dynamic type, named types - are folded by /repo into a recording visitor (with and without the extended interfaces); the events must equal those of the extracted fold model (Gotype/Fold.v) and their value must equal the documented mapping (Gotype/FoldSpec.v, written from the documentation).",
   note="User folders, Folder and IsZeroer implementations are not generated. ",
   technique="Coq proof (fold model vs documented mapping) + extracted-model correspondence + direct oracle (spec_fold)"),
+ "C13": dict(
+  thm="Theorems (coq/Properties/C13.v): see the file.",
+  tie="Run: generated (target type, initial target value, event stream) triples - streams from Fold of the same or another type, objects with extra members of every value kind and depth, raw streams; by-value and by-reference delivery, announced and unknown lengths - are unfolded by /repo; the verdict and the final target value must equal those of the extracted unfolder model (Gotype/Unfold.v); stack depths (hook) must be idle after a complete document.",
+  note="User unfolders / Expander are not generated; float -> integer conversions outside the target range (implementation-defined in Go) are not compared. ",
+  technique="Coq proof + extracted-model correspondence on final target values"),
+ "C14": dict(
+  thm="Theorems (coq/Properties/C14.v): see the file.",
+  tie="Run: every generated (stream, target type) pair incl. shape mismatches at every depth and documents abandoned at a random event, under deadline/recover/ulimit -v: /repo must return an error or succeed exactly as the unfolder model does, never panic or hang; unsupported target types must be refused by SetTarget.",
+  note="The memory-safety half (no write outside the target through unsafe) is runtime behaviour the model cannot exhibit: partial. ",
+  technique="Coq proof (total unfolder model; allocation bound) + guarded differential runs"),
  "C16": dict(
   thm="Theorems (coq/Properties/C16.v): in the encoder models a failed write is returned by the call that made it (if every call returned nil the failing write was never attempted); adapters deliver nothing after a visitor error (see the file for components covered).",
   tie="Run (fault enumeration): writers/visitors failing from a generated index on, for encoders, parsers, adapters and Fold of /repo: an error must be returned no later than the last event, be the injected error itself, and nothing may be delivered after it; outcome must equal the model's.",
